@@ -220,7 +220,7 @@ def _limit(mem_gb):
 
 def run_cbmc(o, unit, bounds, extra_defs=(), trace=False, timeout=None):
     cmd = ['cbmc', os.path.join(VERIF, o.harness), '-DOUTC="%s"' % unit.outc, '-I', ENGINE,
-           '-I', os.path.dirname(os.path.join(VERIF, o.harness)),
+           '-I', os.path.dirname(os.path.join(VERIF, o.harness)), '-I', unit.dir,
            '--function', 'harness', '--drop-unused-functions', '--unwinding-assertions', '--no-standard-checks',
            '--no-malloc-may-fail', '--verbosity', '8', '--unwind', str(o.unwind_start)]
     for k, v in list(o.defines.items()) + list(extra_defs):
@@ -347,7 +347,7 @@ def native_build(o, unit, mode, extra_defs=()):
     for k, v in list(o.defines.items()) + list(extra_defs):
         defs.append('-D%s=%s' % (k, v) if v is not None else '-D%s' % k)
     hp = os.path.join(VERIF, o.harness)
-    common = ['-O1', '-w', '-I', ENGINE, '-I', os.path.dirname(hp), '-fno-strict-aliasing'] + defs
+    common = ['-O1', '-w', '-I', ENGINE, '-I', os.path.dirname(hp), '-I', unit.dir, '-fno-strict-aliasing'] + defs
     if mode == 'trans':
         r = sh(['gcc', '-std=gnu11'] + common + ['-DNATIVE_TRANS', '-DOUTC="%s"' % unit.outc, hp, '-lm', '-Wl,--unresolved-symbols=ignore-all', '-no-pie', '-o', exe])
     else:
